@@ -79,6 +79,23 @@ def run(ck):
             elif r[en].lower() != lit.lower().lstrip("+"):
                 probs.append("%s is matched as %r but printed as %r" % (en.rsplit("::", 1)[1], r[en], lit))
         ck.ob("C18-R2", "table:%s" % kind, not probs and len(r) >= 2, pr.loc, pr, "; ".join(probs[:3]) or "%d literals agree" % len(r))
+        # the chain takes the first literal that matches the text *as a prefix*: a literal tried earlier must not be a proper prefix of
+        # one tried later, or the later one can never be read back ("json" before "json-patch+json")
+        shadow = []
+        nseq = 0
+        for g in [pr] + prog.lambdas_in(pr):
+            seq = [(lit, bid) for lit, en, bid in tables.chain_pairs(g, with_block=True) if ("::" + kind + "::") in en]
+            nseq += len(seq)
+            for a_, ba in seq:
+                later = cfg.reachable_blocks(g, ba)
+                for b_, bb in seq:
+                    if bb != ba and bb in later and ba not in cfg.reachable_blocks(g, bb) and a_ and b_.lower() != a_.lower() and b_.lower().startswith(a_.lower()):
+                        shadow.append((a_, b_))
+        seq = [None] * nseq
+        ck.ob("C18-R2", "table:%s/no-literal-shadows-a-later-one" % kind, not shadow, pr.loc, pr,
+              "the %d literals are tried in an order in which none is a prefix of a later one" % len(seq) if not shadow else
+              "%r is tried before %r and matches its beginning: a media type written with %r is read back as %r followed by rubbish"
+              % (shadow[0][0], shadow[0][1], shadow[0][1], shadow[0][0]), structural=True)
 
     # a scan that stops at delimiters must not come before the table lookup of a literal that contains one of them: the scanned
     # token can then never be that literal ("schema+json" after a scan that stops at '+')
@@ -140,7 +157,11 @@ def run(ck):
                     if fl_ or fr_:
                         pairs.append((e, fl_ and fr_))
         ok = len(tl) >= 1 and bool(pairs) and all(p_[1] for p_ in pairs)
-        ck.ob("C18-R4", "match_string/folds-with-tolower", ok, f.loc, f, "both compared characters go through std::tolower" if ok else
+        # the C library's bounded case-insensitive comparison folds both operands itself (ONLY_C_LOCALE build: ASCII letters only)
+        libfold = [e for g_ in reg4 for e in g_.calls(lambda e: (e.get("callee") or "") in ("strncasecmp",))]
+        if libfold and not pairs:
+            ok = True
+        ck.ob("C18-R4", "match_string/folds-with-tolower", ok, f.loc, f, ("both compared characters go through std::tolower" if not libfold else "strncasecmp folds both operands") if ok else
               "the case-insensitive comparison does not fold both operands with tolower (%d tolower calls, %d folded comparisons): punctuation may alias control characters" % (len(tl), len(pairs)))
     qf = lib.single(prog, M + "Q::fromFloat")
     rounds = [e for e in qf.calls(lambda e: (e.get("callee") or "") in ("round", "std::round", "lround", "std::lround", "llround", "nearbyint", "std::nearbyint", "rint", "std::rint"))]
